@@ -1,6 +1,7 @@
 package sim
 
 import (
+	"encoding/json"
 	"fmt"
 	"sort"
 	"strings"
@@ -328,6 +329,9 @@ func oracleC04(t *Trace, v *vset) {
 		// r4 stable
 		for _, w := range t.Writes {
 			if w.Seq > wa.RetSeq && w.Gen == wa.Gen && (w.Path == pp || under(w.Path, pp)) {
+				if rewritesSame(t, w) {
+					continue // the stored plan does not change
+				}
 				o := t.Obj(w.Path)
 				kl := "object"
 				if o != nil {
@@ -414,4 +418,21 @@ func hangShape(l *Layout, p *PlanSnap) string {
 		parts = append(parts, fmt.Sprintf("plan Running [%s]", strings.Join(gs, " ")))
 	}
 	return strings.Join(parts, "; ")
+}
+
+// rewritesSame: the write stores exactly what the previous applied write of the
+// same object stored (an idempotent rewrite: the stored plan does not change).
+func rewritesSame(t *Trace, w *WriteRec) bool {
+	var prev *WriteRec
+	for _, x := range t.WByPath[w.Path] {
+		if x.Seq < w.Seq {
+			prev = x
+		}
+	}
+	if prev == nil {
+		return false
+	}
+	a, _ := json.Marshal(prev.St)
+	b, _ := json.Marshal(w.St)
+	return string(a) == string(b)
 }
